@@ -315,6 +315,12 @@ def positions_case(rng, ctx, scn, K, mon):
         'Ltotal_scatter': scn.Ltotal(da, scatter=True), 'Ltotal_noscatter': scn.Ltotal(da, scatter=False),
         'incident_beam': scn.incident_beam(da), 'scattered_beam': scn.scattered_beam(da),
     }
+    for nm_, ref_ in (('position', pos), ('source_position', source), ('sample_position', sample)):
+        g_ = getattr(scn, nm_)(da)
+        ctx.event('accessor.' + nm_)
+        if g_.unit != sc.Unit(unit) or not np.array_equal(np.broadcast_to(np.asarray(g_.values), np.shape(ref_)), ref_):
+            ctx.violation('accessor', f'scippneutron.{nm_} does not return the supplied {nm_}',
+                          dict(case, accessor=nm_), accessor=nm_)
     mon.origin = 'direct'
     want = {
         'L1': geom.norm(inc), 'L2': geom.norm(sca), 'two_theta': geom.angle(np.broadcast_to(inc, sca.shape), sca),
